@@ -4,6 +4,9 @@
 //   loc get <hex bytes | ->    ->  <code> | <name>,<name>… | <country> | <ccode> | err:0|1        (strings in hex)
 //   loc table lang|country     ->  the tables as the COMPILER sees them, `code:name` pairs in hex
 //   loc reset                  ->  ok
+//   loc getbig <prefix hex> <fill byte hex> <count> <suffix hex>
+//                              ->  like `loc get` for the string prefix + count x fill + suffix (count up to 2^32 + 100: the
+//                                  property says `strings of any length`; part lengths that do not fit an int show here)
 //   loc static <k>             ->  <hex of the k-th fixed string> => <what get returned for it when it was called DURING STATIC
 //                                  INITIALISATION of this translation unit>, `none` past the end.  This file precedes
 //                                  LocaleInfo.cpp on the link line, so its initialisers run first — the situation of an
@@ -26,6 +29,8 @@
 #include <cstdio>
 #include <cstdlib>
 #include <cstring>
+#include <sys/wait.h>
+#include <unistd.h>
 #include <iostream>
 #include <new>
 #include <set>
@@ -88,11 +93,68 @@ __attribute__((noinline)) static void poisonStack() {
     asm volatile("" : : "r"(pad) : "memory");
 }
 
+static std::string runGetOwned(char *s);
+
 static std::string runGet(const std::string &arg) {
     // exact-size heap copy of the argument: an over-read of the argument itself is an ASan heap-buffer-overflow
     char *s = new char[arg.size() + 1];
     memcpy(s, arg.data(), arg.size());
     s[arg.size()] = 0;
+    return runGetOwned(s);
+}
+
+// get() echoes its argument on stderr when it falls back: for a multi-gigabyte argument only the tail of what is written to
+// stderr is passed on (by a forked drainer, so that a sanitizer report survives the death of this process)
+struct StderrTail {
+    int saved = -1;
+    pid_t child = -1;
+    StderrTail() {
+        int p[2];
+        if (pipe(p) != 0) return;
+        fflush(stderr);
+        child = fork();
+        if (child == 0) {
+            close(p[1]);
+            std::string tail;
+            static char buf[1 << 16];
+            size_t total = 0;
+            ssize_t n;
+            while ((n = read(p[0], buf, sizeof buf)) > 0) {
+                total += static_cast<size_t>(n);
+                tail.append(buf, static_cast<size_t>(n));
+                if (tail.size() > 65536) tail.erase(0, tail.size() - 16384);
+            }
+            if (total > tail.size()) dprintf(2, "[%zu bytes of stderr dropped]\n", total - tail.size());
+            if (write(2, tail.data(), tail.size()) < 0) {}
+            _exit(0);
+        }
+        close(p[0]);
+        saved = dup(2);
+        dup2(p[1], 2);
+        close(p[1]);
+    }
+    ~StderrTail() {
+        if (saved < 0) return;
+        fflush(stderr);
+        dup2(saved, 2);
+        close(saved);
+        int st;
+        if (child > 0) waitpid(child, &st, 0);
+    }
+};
+
+static std::string runGetBig(const std::string &prefix, unsigned char fill, size_t count, const std::string &suffix) {
+    StderrTail tailOnly;
+    size_t n = prefix.size() + count + suffix.size();
+    char *s = new char[n + 1];
+    memcpy(s, prefix.data(), prefix.size());
+    memset(s + prefix.size(), fill, count);
+    memcpy(s + prefix.size() + count, suffix.data(), suffix.size());
+    s[n] = 0;
+    return runGetOwned(s);
+}
+
+static std::string runGetOwned(char *s) {
 
     alignas(LocaleInfo::Info) unsigned char storage[sizeof(LocaleInfo::Info)];
     memset(storage, 0xA5, sizeof(storage));
@@ -155,6 +217,11 @@ int main() {
             } else if (t[1] == "get" && t.size() == 3 && parseHex(t[2], arg)) {
                 if (arg.find('\0') != std::string::npos) out = "bad-op";      // not a C string
                 else out = runGet(arg);
+            } else if (t[1] == "getbig" && t.size() == 6) {
+                std::string pre, fillS, suf;
+                if (parseHex(t[2], pre) && parseHex(t[3], fillS) && fillS.size() == 1 && fillS[0] != 0 && parseHex(t[5], suf)
+                    && pre.find('\0') == std::string::npos && suf.find('\0') == std::string::npos)
+                    out = runGetBig(pre, static_cast<unsigned char>(fillS[0]), std::strtoull(t[4].c_str(), nullptr, 10), suf);
             } else if (t[1] == "static" && t.size() == 3) {
                 size_t k = std::strtoul(t[2].c_str(), nullptr, 10);
                 out = k < staticResults.size() ? staticResults[k] : "none";
